@@ -2,7 +2,7 @@
    edge-triggered epoll ready list with concurrent senders; scheduler = arbitrary label list). *)
 From Coq Require Import List Arith Bool ZArith.
 From IPC Require Import U64 Params RSet RSetProofs.
-From IPC Require K Prog Ideal Api ApiProofs ApiInv ApiSelect InprocSet InprocSetProofs.
+From IPC Require K Prog Ideal Api ApiProofs ApiInv ApiSelect ApiUnique InprocSet InprocSetProofs.
 Import ListNotations.
 
 (* the batch capacity of the model is the one in the source (GENERATED constant) *)
@@ -64,7 +64,7 @@ Proof. vm_compute. reflexivity. Qed.
 
 (* ---- the public IpcReceiverSet inside whole-API programs (model: Api.v; proofs: ApiInv.v) ---- *)
 Module ApiLevel.
-Import K Prog Ideal Api ApiProofs ApiInv ApiSelect.
+Import K Prog Ideal Api ApiProofs ApiInv ApiSelect ApiUnique.
 Local Open Scope nat_scope.
 
 (* serving one member of a set: every queued message is reported exactly once, in queue order, tagged with the member's index
@@ -96,6 +96,15 @@ Theorem C06_api_select_events : forall s sh ms, a_inv s -> lookup (ah s) sh = So
   exists evs, snd (a_step s (ASelectAll sh)) = QSelect evs /\ map proj_ev evs = member_events (ak s) 0 ms.
 Proof. exact api_select_events. Qed.
 Print Assumptions C06_api_select_events.
+
+(* ... and for every REACHABLE state without any side condition: a receiving end exists once (ApiUnique.rr_once_run), so the members
+   of a set are pairwise distinct channels *)
+Theorem C06_api_select_events_reachable : forall ops sh ms,
+  let s := fst (a_run a_init ops) in
+  lookup (ah s) sh = Some (OSet ms) ->
+  exists evs, snd (a_step s (ASelectAll sh)) = QSelect evs /\ map proj_ev evs = member_events (ak s) 0 ms.
+Proof. exact api_select_events_reachable. Qed.
+Print Assumptions C06_api_select_events_reachable.
 
 (* underneath: releasing the receiving end of a channel whose queue is empty kills at most that channel and changes nothing else *)
 Theorem C06_api_close_empty_frame : forall k c ch, k_wf k -> k_stable k ->
